@@ -22,6 +22,8 @@ RULE = ("same exploration as C05 (BFS over every store order of every "
         "(shard bits up to 70, minishard bits up to 4, preshift 62) x 4 "
         "index/data encoding pairs; in every closed state every chunk of "
         "the grid is looked up by the specification-only reader. "
+        "Big-payload family (chunks of 0..12289 bytes, 4 orders x both "
+        "buffering strategies x 24 configurations). "
         "Non-trivial states: >= 2 chunks stored.")
 ASSUMPTIONS = [
     "DESIGN.md Appendix A.1 restates the sharded format correctly "
@@ -58,8 +60,12 @@ def configs(tier):
 def units(tier):
     cf = configs(tier)
     per = 6
-    return [{"configs": cf[i:i + per], "tier": tier}
-            for i in range(0, len(cf), per)]
+    u = [{"configs": cf[i:i + per], "tier": tier}
+         for i in range(0, len(cf), per)]
+    bc = base.big_configs()
+    u += [{"kind": "big", "configs": bc[i:i + 8], "tier": tier}
+          for i in range(0, len(bc), 8)]
+    return u
 
 
 def space(tier):
@@ -70,6 +76,9 @@ def space(tier):
 
 def run_unit(u):
     col = Collector()
+    if u.get("kind") == "big":
+        base.big_unit(col, u["configs"], FAMILY, pkg=False, spec=True)
+        return col.result()
     for cfg in u["configs"]:
         # the on-disk strategy produces byte-identical files (C05 checks
         # that), so the spec reader is run on the BFS states only, plus one
